@@ -223,6 +223,18 @@ def _ipv6(ctx, rep, cl, thorough=False, parse_only=False):
             part = Wk & PREP[j]
             if not part.is_empty():
                 broken = part if broken is None else (broken | part)
+    pairs = []
+    for k in range(len(D)):
+        Wk = V4T & D[k]
+        for j in range(k):
+            Wk = Wk - D[j]
+        if Wk.is_empty():
+            continue
+        for j in range(k):
+            if not (Wk & PREP[j]).is_empty():
+                pairs.append("%s<%s" % (_alt_id(alts[j]), _alt_id(alts[k])))
+    if not notmatched.is_empty():
+        pairs.append("unmatched:" + "/".join(notmatched.shortest(2)))
     bad_w = []
     if broken is not None and not broken.is_empty():
         bad_w += broken.shortest(10 if thorough else 3)
@@ -230,7 +242,7 @@ def _ipv6(ctx, rep, cl, thorough=False, parse_only=False):
         bad_w += notmatched.shortest(10 if thorough else 3)
     rep.ob(cl + ".ipv6-v4tail-whole", "IPv6_PATTERN", not bad_w,
            "IPv6 addresses with an IPv4-style tail are not replaced as a whole (an earlier colon/hex alternative commits to a proper prefix because '.' is accepted as right context, or no alternative matches): %r" % (bad_w,), loc,
-           witness=bad_w[0] if bad_w else None, key=cl + ".ipv6-v4tail-whole|IPv6_PATTERN")
+           witness=bad_w[0] if bad_w else None, key=cl + ".ipv6-v4tail-whole|" + ";".join(sorted(set(pairs))))
     # ambiguity inside one alternative (priority analysis not attempted): must be empty
     for i in range(len(D)):
         amb = D[i] & PREP[i] & (HEX | V4T)
